@@ -192,8 +192,8 @@ def conditions(tier, seed, active):
             out.append(dict(id="history/d%d/n1/%s" % (d, kind), module=__name__, factory="history", params=dict(d=d, n=1, kind=kind), timeout=600,
                             tags=["n1"], witness=["n1"]))
         for first in range(N_OPS):
-            if quick and d in (3, 6) and first % 2 == 1:
-                continue
+            if quick and d in (3, 6):
+                continue            # quick: two-step histories for Drafts 4 and 7; one-step histories for all four
             out.append(dict(id="history/d%d/n2/first%d" % (d, first), module=__name__, factory="first_op",
                             params=dict(d=d, n=2, first=first), timeout=900, tags=["n2"], witness=[]))
             if not quick:
